@@ -11,6 +11,10 @@ def small_messages(rng, eng, n, maxlen=72):
     """(history line, frame octets, message observation) of short in-domain messages"""
     cases = []
     g = eng.dicts["g"]
+    # every command the library knows, as a request and as an answer, with the application it usually comes with
+    for j, cmd in enumerate(gen.CMDS):
+        for fl in (0x80, 0, 0xc0):
+            cases.append(hist_line("g", ("NEW", cmd, gen.APPS[j % len(gen.APPS)], fl, 0x100 + j, 0x200 + j), []))
     for i in range(n * 3):
         r = rng.fork(f"sm{i}")
         ops = []
@@ -27,10 +31,10 @@ def small_messages(rng, eng, n, maxlen=72):
     out = []
     for c, im in zip(cases, impl):
         if im.startswith("R ok") and " ENC x" in im:
-            fr = bytes.fromhex(im[im.rindex(" ENC ") + 6:])
+            fr = bytes.fromhex(im[im.rindex(" ENC ") + 6:].split()[0])
             if len(fr) <= maxlen:
                 out.append((c, fr, msg_text(im)))
-        if len(out) >= n:
+        if len(out) >= n + 36:
             break
     return out
 
@@ -162,7 +166,7 @@ def check_C06(chk, tier, seed):
     # large messages and frames: sizes that are not a multiple of any buffer size a codec might use (4096, 8192, 16384,
     # 65536), written through writers of various appetites, and read back pipelined with small frames with the seam between
     # two frames falling inside one delivery
-    big_lines = [f"H g NEW 110 4 0 {hx(7 + j)} 2 1 ADDAVP 3f3 - 0 L octz {hx(n)}" for j, n in enumerate([4100, 5000, 9001, 16385, 21000] + ([70000, 300001] if tier == "thorough" else []))]
+    big_lines = [f"H g NEW 110 4 0 {hx(7 + j)} 2 1 ADDAVP 3f3 - 0 L octz {hx(n)}" for j, n in enumerate([4100, 5000, 9001, 16385, 21000, 1048548] + ([70000, 300001, 1048544] if tier == "thorough" else []))]      # 1048548: a frame of exactly 1 MiB, the largest the reader accepts
     big = []
     for c, im in zip(big_lines, core.run_sharded([eng.harness, "codec"], eng.prelude, big_lines, shards=1)):
         if " ENC2DIFF " in im:
@@ -172,14 +176,16 @@ def check_C06(chk, tier, seed):
         if im.startswith("R ok") and " ENC x" in im:
             big.append((c, bytes.fromhex(im[im.rindex(" ENC ") + 6:].split()[0]), msg_text(im)))
     for (c, fr, obs) in big:
-        for script in ([], [4096] * (len(fr) // 4096 + 1), [1000, "p"] * (len(fr) // 1000 + 1), [16384] * (len(fr) // 16384 + 1), [len(fr) - 1, 1]):
+        scripts = ([], [4096] * (len(fr) // 4096 + 1), [1000, "p"] * (len(fr) // 1000 + 1), [16384] * (len(fr) // 16384 + 1), [len(fr) - 1, 1])
+        for script in (scripts if len(fr) < 400000 else scripts[3:]):        # (the model's octet lists make a 1 MiB frame cost seconds per case)
             cases.append(f"SE {c[2:]} {ws(script)}")
             expect.append(("write-large", "SE ok " + xb(fr)))
         small = msgs[len(fr) % len(msgs)]
         stream = small[1] + fr + small[1] + small[1]
         a = len(small[1]) + len(fr)
         want = (f"SD [OK {small[2]} @{len(small[1])}] [OK {obs} @{a}] [OK {small[2]} @{a + len(small[1])}] [OK {small[2]} @{len(stream)}] [EOF @{len(stream)}]")
-        for cuts in ([a - 7, a + 9], [a - 1, a + 1], [len(small[1]) + 3, a - 4000, a + 3], [4096, 8192, a + len(small[1]) + 2], [a + 2 * len(small[1]) - 1]):
+        allcuts = ([a - 7, a + 9], [a - 1, a + 1], [len(small[1]) + 3, a - 4000, a + 3], [4096, 8192, a + len(small[1]) + 2], [a + 2 * len(small[1]) - 1])
+        for cuts in (allcuts if len(fr) < 400000 else allcuts[:2]):
             cuts = sorted(x for x in set(cuts) if 0 < x < len(stream))
             chunks = [stream[i:j] for i, j in zip([0] + cuts, cuts + [len(stream)])]
             cases.append(f"SD g 5 {rs(chunks, 'e')}")
@@ -364,6 +370,17 @@ def server_scenarios(rng, eng, msgs, n, tier):
         chunks = [stream] if r.chance(1, 2) else random_chunking(r, stream)
         case = f"SV g {rs(chunks)} {ws([])} {len(frames)} " + " ".join("A " + a[0][2:] for a in answers)
         out.append((case, ("ret", xb(b"".join(a[1] for a in answers))), "retransmission", len(frames)))
+    # every command the library knows as the first request of a pipeline (capabilities exchange, watchdog, disconnect-peer, ...):
+    # whatever a command means to the application, the connection loop treats it like any other request - the two requests
+    # behind it are handled and answered
+    for k in range(min(36, len(msgs))):
+        r = rng.fork(f"cmd{k}")
+        reqs = [msgs[k]] + [msgs[r.below(len(msgs))] for _ in range(2)]
+        answers = [msgs[(k + 5) % len(msgs)]] + [msgs[r.below(len(msgs))] for _ in range(2)]
+        stream = b"".join(q[1] for q in reqs)
+        case = f"SV g {rs([stream] if k % 2 else list(q[1] for q in reqs))} {ws([])} 3 " + " ".join("A " + a[0][2:] for a in answers)
+        exp = "SV closed CALLS 3" + "".join(f" [{q[2]}]" for q in reqs) + f" WRITTEN {xb(b''.join(a[1] for a in answers))}"
+        out.append((case, exp, "every-command", 3))
     # while the handler works on a request, part of the NEXT request arrives, the stream then has nothing for a moment, and the
     # rest arrives after the handler is done: no octet of it may be lost, whatever the server does while it waits for the handler
     for k in range(30 if tier == "quick" else 1500):
@@ -400,6 +417,22 @@ def server_scenarios(rng, eng, msgs, n, tier):
         case = f"SV g {rs(chunks)} {ws([])} {nreq} " + " ".join("A " + a[0][2:] for a in answers)
         exp = f"SV closed CALLS {nreq}" + "".join(f" [{q[2]}]" for q in reqs) + f" WRITTEN {xb(b''.join(a[1] for a in answers))}"
         out.append((case, exp, "long-pipeline", nreq))
+    # requests of the largest size the stream reader accepts (1 MiB exactly) and just below: handled like any other, the request
+    # behind them too; 4 octets more is refused (nothing after it is handled)
+    for k, total in enumerate([0x100000 - 4, 0x100000, 0x100000 + 4]):
+        r = rng.fork(f"bigreq{k}")
+        small = [msgs[r.below(len(msgs))] for _ in range(2)]
+        answers = [msgs[r.below(len(msgs))] for _ in range(3)]
+        n = total - 20 - 8
+        avp = gen.be(1011, 4) + b"\0" + gen.be(8 + n, 3) + bytes(n)
+        bigreq = bytes([1]) + gen.be(total, 3) + bytes([0x80]) + gen.be(0x110, 3) + gen.be(4, 4) + gen.be(1, 4) + gen.be(2, 4) + avp
+        stream = small[0][1] + bigreq + small[1][1]
+        chunks = [stream] if k % 2 else [stream[i:i + 60000] for i in range(0, len(stream), 60000)]
+        case = f"SV g {rs(chunks)} {ws([])} 3 " + " ".join("A " + a[0][2:] for a in answers)
+        if total <= 0x100000:
+            out.append((case, ("bigreq", 3, xb(b"".join(a[1] for a in answers))), "big-request", 3))
+        else:
+            out.append((case, ("bigreq", 1, xb(answers[0][1])), "big-request", 3))
     # an answer larger than the 1 MiB the server is prepared to READ: the limit is about incoming frames, whatever the
     # handler returns (up to the 2^24 the wire can carry) must be written in full
     for k, n in enumerate([0x100000 - 28 - 4, 0x100000 - 28, 0x100000 + 4] if tier == "quick" else [0x100000 - 28 - 4, 0x100000 - 28, 0x100000 + 4, 0x400000]):
@@ -432,19 +465,27 @@ def check_C08(chk, tier, seed):
         chk.validated += 1
         chk.count("scenario:" + kind)
         chk.count(f"requests:{nreq}")
-        if isinstance(exp, tuple):
+        if isinstance(exp, tuple) and exp[0] == "bigreq":
+            t = strip_consumed(im)
+            want_res = "closed" if exp[1] == 3 else "failed"
+            ok = t.startswith(f"SV {want_res} CALLS {exp[1]} [") and t.endswith(" WRITTEN " + exp[2])
+            exp = f"SV {want_res} CALLS {exp[1]} [...] WRITTEN {exp[2]}"
+        elif isinstance(exp, tuple):
             # the calls' content is compared with the model below; here: one call per frame, exactly the answers written, clean close
             t = strip_consumed(im)
             ok = t.startswith(f"SV closed CALLS {nreq} [") and t.endswith(" WRITTEN " + exp[1])
             exp = f"SV closed CALLS {nreq} [one call per frame, copies included] WRITTEN {exp[1]}"
         else:
             ok = strip_consumed(im) == exp
-        if not ok:
+        if ok and " WAFTER " in im:
+            ok = False
+            chk.violation("a write was attempted on the stream after its write side had failed", dict(case=c, scenario=kind, impl=short(im, 3000)))
+        elif not ok:
             chk.violation("the connection loop did not call the handler exactly once per request in order and write exactly its answers (or did not stop at the first "
                           "malformed frame / handler failure)" + (": the connection task never completed" if "HANG" in im else "") + (": it panicked" if "panicked" in im else ""),
                           dict(case=c, scenario=kind, impl=short(im, 3000), expected=short(exp, 3000)))
-        elif im != mo:
-            chk.corr_break("observation differs from the model", dict(case=c, impl=short(im, 2000), model=short(mo, 2000)))
+        elif ok and im != mo:
+            chk.corr_break("observation differs from the model", dict(case=short(c, 4000), impl=short(im, 2000), model=short(mo, 2000)))
         if i % max(1, len(sc) // 6) == 0:
             chk.sample(dict(case=c, impl=short(im, 200), P=ok))
     chk.rule = ("1..8 requests (random AVP content) with handler answers of random size; delivery: one chunk (pipelined), one chunk per frame, one-octet dribble, random "
@@ -483,6 +524,12 @@ def check_C09(chk, tier, seed):
                     cases.append(f"SV g {rs(chunks, tail)} 0 {nreq} {ans_tok}")
                     expect.append(f"SV {res} CALLS {whole}{calls} WRITTEN {xb(written)}")
                     kinds.append("read-cut:" + tail)
+            # the same cut while the writer is under back-pressure (not ready once before every portion it takes): the answers
+            # to the requests that arrived completely are still written in full
+            data = stream[:p]
+            cases.append(f"SV g {rs([data] if data else [], 'e')} {ws(['p', 1000] * (2 * nreq + 2))} {nreq} {ans_tok}")
+            expect.append(f"SV closed CALLS {whole}{calls} WRITTEN {xb(written)}")
+            kinds.append("read-cut:backpressure")
         # every write-side failure offset
         alla = b"".join(a[1] for a in answers)
         abounds, acc = [], 0
@@ -511,11 +558,15 @@ def check_C09(chk, tier, seed):
         chk.validated += 1
         chk.count(kind)
         ok = strip_consumed(im) == exp
-        if not ok:
+        if ok and " WAFTER " in im:
+            ok = False
+            chk.violation("a write was attempted on the stream after its write side had failed (" + im[im.index(" WAFTER ") + 8:] + " further attempt(s))",
+                          dict(case=c, kind=kind, impl=short(im, 3000), expected=short(exp, 3000)))
+        elif not ok:
             chk.violation("after a connection loss the task did not terminate cleanly having called the handler for exactly the requests that had arrived completely "
                           "and written exactly (a prefix of) their answers" + (": it never completed" if "HANG" in im else "") + (": it panicked" if "panicked" in im else ""),
                           dict(case=c, kind=kind, impl=short(im, 3000), expected=short(exp, 3000)))
-        elif im != mo:
+        elif ok and im != mo:
             chk.corr_break("observation differs from the model", dict(case=c, impl=short(im, 2000), model=short(mo, 2000)))
         if i % max(1, len(cases) // 6) == 0:
             chk.sample(dict(case=c, impl=short(im, 200), P=ok))
